@@ -23,7 +23,8 @@ MANIFEST = {
             'give-up beyond the configured failures); a detected self-connection is dropped and never retried; announcements '
             'never change an existing entry. Every peer-file write is re-executed with a process crash at every durable '
             'boundary (file = complete old or new list, <= 100 entries, most recent first).'
-            " The node's own address appears in its peer book / peer exchange (must not be attempted again once detected), some hosts never answer (attempt ends by timeout), one address may be listed under two keys.",
+            " The node's own address appears in its peer book / peer exchange (must not be attempted again once detected), some hosts never answer (attempt ends by timeout), one address may be listed under two keys."
+            " The node's own address may sit behind a port forward (dialled port differs from the listening port).",
     'note': 'Trusted: RefBackoff model in this file, SimFS crash model, simulated network; greetings are observed at the '
             'node\'s greeting handler (an observation wrapper installed by the harness at run time, not a repo hook).',
 }
